@@ -109,6 +109,9 @@ def _tracker_model(ctx: Ctx, c, attr: str, initial, batch_ranks: tuple, rank0: d
         return None
 
     it = Interp(prog, c, atom, call_model, record_calls=("register",), max_depth=5)
+    for t_, r_ in ranks.items():
+        # a fitness object's maximising aggregate is its rank (what helpers such as best_individual / sort_population read)
+        it.heap[("fit:" + t_, "maximizing_aggregate")] = r_
     env = {"self": Sym("self"), f"self.{attr}": initial, "self.recorders": [Sym("rec1")], "individuals": list(inds),
            "self.problem": Sym("problem"), "self.evaluator": Sym("evaluator")}
     return it.run(ev, env), inds, ranks
